@@ -11,7 +11,7 @@ NEEDS = ["battery_valid_relay", "battery_valid_state", "inverter_valid_state", "
 
 
 def streams():
-    return [B.TrackerStream(), B.BlockingStream(), B.PoolStream(), B.E2EStream()]
+    return [B.TrackerStream(), B.BlockingStream(), B.PoolStream(), B.E2EStream(), B.ManagerStream()]
 
 
 ASSUMPTIONS = [
